@@ -1,4 +1,5 @@
 import BlochVerif.Update.Proofs
+import BlochVerif.Generated.UpdateConsts
 /-!
 # C20 — self-update: strictly newer only, exact checksum line, throttled notice
 
@@ -279,5 +280,18 @@ example : decideUpdate ['1', '.', '9', '.', '0'] ['v', '1', '.', '1', '0', '.', 
 example : decideUpdate ['1', '.', '1', '0', '.', '0'] ['1', '.', '9', '.', '0'] = .alreadyLatest := by decide
 example : decideUpdate ['1', '.', '0', '.', '0'] ['g', 'a', 'r'] = .unparsable := by decide
 example : parseChecksum ['a', ' ', 'x', '.', 's', '\n', 'b', ' ', ' ', 'x', '\n'] ['x'] = some ['b'] := by decide
+
+end BlochVerif.Props.C20
+
+/-! ## the constants are the source's (translator output, regenerated on every run) -/
+namespace BlochVerif.Props.C20
+open BlochVerif BlochVerif.Update
+
+/-- `Generated/UpdateConsts.lean` is rewritten on every run from `update_manager.cpp`: the model's notice window is
+`kUpdateWindow` (72 hours), and the check is disabled by the presence of exactly the three documented variables -/
+theorem window_and_switches_are_the_source_constants :
+    window = (Generated.updateWindowSeconds : Int) ∧ Generated.updateWindowSeconds = 72 * 3600 ∧
+      Generated.skipEnvNames = ["BLOCH_NO_UPDATE_CHECK", "CI", "BLOCH_OFFLINE"] := by
+  decide
 
 end BlochVerif.Props.C20
